@@ -315,4 +315,49 @@ def sqlparseRemoveQuotes (σ : Name) : Name :=
 def colScalarSubqueryName (σ : Name) : Name :=
   colSourceName (colSourceName (sqlparseRemoveQuotes σ))
 
+/-- positions at which a column name is written or read -/
+inductive ColPos
+  | selectItem        -- un-aliased select item: target column `Column(column_name, …)`   (sqlfluff/models.py:138)
+  | aliasDef          -- `… AS σ`: target column `Column(alias, …)`                        (sqlfluff/models.py:108)
+  | columnList        -- INSERT / CREATE column list: `SqlFluffColumn.of(column_reference)` (create_insert.py:84, models.py:145)
+  | source            -- column reference read in the same statement (`to_source_columns`)  (core/models.py:213)
+  | sourceLater       -- the same, in a later statement reading the table written before
+  deriving DecidableEq, Repr
+
+/-- the column name an identifier spelled `σ` denotes at a position -/
+def colNameAt : ColPos → Name → Name
+  | .selectItem, σ => colTargetName σ
+  | .aliasDef, σ => colTargetName σ
+  | .columnList, σ => colTargetName σ
+  | .source, σ => colSourceName σ
+  | .sourceLater, σ => colSourceName σ
+
+/-- positions at which a table reference occurs -/
+inductive TablePos
+  | fromClause | joinClause | insertTarget | ctasTarget | laterStatement   -- all built by `SqlFluffTable.of`
+  | qualifier   -- last part used as the qualifier of a column reference, resolved through the alias mapping of a FROM
+                -- list that contains the reference (falling back to `Table(qualifier)`)
+  deriving DecidableEq, Repr
+
+/-- the table a reference spelled `parts` denotes at a position (`cfgDefault` in force, `importDefault` for the
+    fallback) -/
+def tableAt (pos : TablePos) (parts : List Name) (cfgDefault : Name) (importDefault : Schema) : Except NameErr Table :=
+  match pos with
+  | .qualifier => do
+    let (t, _) ← Table.ofParts parts cfgDefault
+    match parts.getLast? with
+    | none => .error .lineage
+    | some last =>
+      match qualifierKey last with
+      | none => .error .lineage
+      | some q =>
+        match dictGet (aliasMapOf [t]) q with
+        | some (.table t') => pure t'
+        | _ => do
+          let (t', _) ← Table.mk q importDefault cfgDefault
+          pure t'
+  | _ => do
+    let (t, _) ← Table.ofParts parts cfgDefault
+    pure t
+
 end SqlLineage.Names
